@@ -419,6 +419,17 @@ theorem parse_serialize (hid : UInt8) (rnd : Bytes) (cfg : Option Int) (pw : Byt
     simpa using this
   · simp only [Spec.derive, ha, Option.bind_some, hkey]
 
+/-! ### the hash-id tables -/
+
+/-- the three lookup functions are mutually consistent and agree with the set of hashes Parse accepts:
+    for all 256 ids, HashIdToHash succeeds iff HashIdToString succeeds iff Parse knows the hash, and
+    HashToHashId inverts HashIdToHash -/
+theorem idTable_consistent : ∀ i : Fin 256,
+    ((hashIdToHash (UInt8.ofNat i.val)).isSome = (hashOfId (UInt8.ofNat i.val)).isSome) ∧
+    ((hashIdToString (UInt8.ofNat i.val)).isSome = (hashOfId (UInt8.ofNat i.val)).isSome) ∧
+    ((hashIdToHash (UInt8.ofNat i.val)).all fun h => hashToHashId h == some (UInt8.ofNat i.val)) = true := by
+  decide +kernel
+
 /-! ### Parse followed by the returned function = RFC 4880 §3.7.1 -/
 
 theorem algRipemd160_wellSized : algRipemd160.WellSized := XC.C14.ripemd160_size
